@@ -6,7 +6,6 @@ import (
 	"errors"
 	"fmt"
 	"io"
-	"strings"
 	"sync"
 	"testing"
 	"time"
@@ -17,7 +16,6 @@ import (
 	"verif/harness/fakenet"
 	"verif/harness/hx"
 	"verif/harness/peer"
-	"verif/harness/quiesce"
 	"verif/harness/tx"
 )
 
@@ -226,8 +224,12 @@ func runCase(c Case, ctx *hx.Ctx) *hx.Failure {
 		case <-time.After(32 * time.Second):
 			// every caller's context ended 12 s ago: "its context ended" is one of the listed reasons to report failure,
 			// so a caller still inside the transport neither succeeded nor reported anything
-			stuck := quiesce.With("ExchangeContext")
-			return hx.Failf("C08/exchange-never-returns", "engine=%s datagram=%v: a burst of %d queries has callers still inside ExchangeContext 12 s after their contexts ended; blocked in the transport:\n%s", c.Engine, c.Datagram, n, excerpt(stuck))
+			hang, detail := hx.HangVerdict("c08.runCase.func", nil)
+			if !hang {
+				ctx.Class("inconclusive:callers-slow")
+				return nil
+			}
+			return hx.Failf("C08/exchange-never-returns", "engine=%s datagram=%v: a burst of %d queries has callers still inside ExchangeContext 12 s after their contexts ended; stuck in the transport:\n%s", c.Engine, c.Datagram, n, detail)
 		}
 		mu.Lock()
 		df := dialFails
@@ -316,22 +318,6 @@ func runCase(c Case, ctx *hx.Ctx) *hx.Failure {
 	ctx.Classf("max-attempts=%d", maxAttempts)
 	ctx.Sample(c)
 	return nil
-}
-
-// excerpt returns up to two of the goroutine stacks, shortened.
-func excerpt(gs []quiesce.G) string {
-	var out []string
-	for _, g := range gs {
-		lines := strings.Split(g.Stack, "\n")
-		if len(lines) > 9 {
-			lines = lines[:9]
-		}
-		out = append(out, strings.Join(lines, "\n"))
-		if len(out) == 2 {
-			break
-		}
-	}
-	return strings.Join(out, "\n--\n")
 }
 
 func connsOf(s []peer.Seen) []int {
